@@ -314,17 +314,25 @@ class AddressRange(collections.namedtuple(
     def rows(self):
         """Get each address for every cell, yields one row at a time."""
         col_range = self.start.col_idx, self.end.col_idx + 1
+
+        def cells_of_row(row):
+            return (AddressCell((col, row, col, row), sheet=self.sheet)
+                    for col in range(*col_range))
+
         for row in range(self.start.row, self.end.row + 1):
-            yield (AddressCell((col, row, col, row), sheet=self.sheet)
-                   for col in range(*col_range))
+            yield cells_of_row(row)
 
     @property
     def cols(self):
         """Get each address for every cell, yields one column at a time."""
         col_range = self.start.col_idx, self.end.col_idx + 1
+
+        def cells_of_col(col):
+            return (AddressCell((col, row, col, row), sheet=self.sheet)
+                    for row in range(self.start.row, self.end.row + 1))
+
         for col in range(*col_range):
-            yield (AddressCell((col, row, col, row), sheet=self.sheet)
-                   for row in range(self.start.row, self.end.row + 1))
+            yield cells_of_col(col)
 
     def address_at_offset(self, row_inc=0, col_inc=0):
         return self.start.address_at_offset(row_inc=row_inc, col_inc=col_inc)
